@@ -28,7 +28,7 @@ var solverCmds = map[string][]string{
 }
 
 // AllSolvers is the portfolio, in preference order.
-var AllSolvers = []string{"z3-new", "z3", "cvc5"}
+var AllSolvers = []string{"z3-new", "cvc5", "z3"}
 
 var scratchOnce sync.Once
 var scratchDir string
@@ -107,8 +107,20 @@ func Race(script string, timeout time.Duration, solvers []string) (Result, []Res
 	ctx, cancel := context.WithCancel(context.Background())
 	defer cancel()
 	ch := make(chan Result, len(solvers))
-	for _, s := range solvers {
-		go func(s string) { ch <- runOne(ctx, s, script, timeout) }(s)
+	for i, s := range solvers {
+		go func(i int, s string) {
+			// the third solver of the portfolio joins only if the first two have not answered
+			// quickly: most obligations are decided in well under a second
+			if i >= 2 {
+				select {
+				case <-ctx.Done():
+					ch <- Result{Status: "unknown", Solver: s, Raw: "not started"}
+					return
+				case <-time.After(1500 * time.Millisecond):
+				}
+			}
+			ch <- runOne(ctx, s, script, timeout)
+		}(i, s)
 	}
 	var all []Result
 	var best Result
